@@ -77,6 +77,7 @@ class Ctx:
         self.notes = []
         self.stop_at_label = None
         self.cache = None
+        self.max_decisions = None   # unwinding bound: paths deeper than this are cut
         self.cached = 0
         self.slow = {}
 
@@ -113,6 +114,8 @@ class Ctx:
             return True
         if z3.is_false(e):
             return False
+        if self.max_decisions is not None and self.pos >= self.max_decisions:
+            raise PathCut('decision-depth cap')
         if self.pos < len(self.prefix):
             c = self.prefix[self.pos]
             if isinstance(c, tuple):
